@@ -115,7 +115,7 @@ def tightJW (a b : Str) (boost : Rat) : Bool :=
   close j boost && j != 0 && j != 1
 
 def tightNames (x y : Indi) (o : SimOpts) : Bool :=
-  x.names.any fun n => y.names.any fun m => tightJW (cleanName n) (cleanName m) o.jaroBoostThreshold
+  x.names.any fun n => y.names.any fun m => tightJW (comparedNames n m).1 (comparedNames n m).2 o.jaroBoostThreshold
 
 def sameData (x y : Indi) : Bool := x.names == y.names && x.birth == y.birth && x.death == y.death
 
@@ -162,7 +162,8 @@ def handleSimilarity (cmd : String) (rest : List String) : Option String :=
     match rest with
     | [a, b, boost, pre] => some <| match fromHex a, fromHex b, parseRat boost, pre.toNat? with
       | some a, some b, some boost, some pre =>
-        s!"{showRat (stringSimilarity a b boost pre)} {b2s (tightJW (cleanName a) (cleanName b) boost)} {toHex (cleanName a)} {toHex (cleanName b)}"
+        let cn := comparedNames a b
+        s!"{showRat (stringSimilarity a b boost pre)} {b2s (tightJW cn.1 cn.2 boost)} {toHex cn.1} {toHex cn.2}"
       | _, _, _, _ => "bad-op"
     | _ => some "bad-op"
   | "datesim" =>
